@@ -63,7 +63,7 @@ func c13Setup(e *Engine, st *Stats) {
 	}
 }
 
-var c13Weights = baseWeights.with(Weights{"mutate": 10, "unstructured": 6})
+var c13Weights = baseWeights.with(Weights{"mutate": 10, "unstructured": 6, "setrole-repeat": 3})
 
 func TestC13(t *testing.T) {
 	runHistories(t, historyCfg{prop: "C13", weights: c13Weights, minSteps: 10, maxSteps: 50, setup: c13Setup, nontrivial: func(rec *CallRecord, g *Gen) (string, bool) {
